@@ -201,7 +201,7 @@ class NoCommon(Component):
         return nocommon_case(tier)
 
     def check(self, case, ctx):
-        L, R = canon.build_table(case["L"]), canon.build_table(case["R"])
+        L, R = canon.build_pair(case)
         ft, m = case["ftype"], case["measure"]
         f = calls.make_filter(ctx, c04.fcfg_of(case), mk_tok(case["tok"]))
         if f is None:
@@ -327,7 +327,7 @@ class Refine(Component):
         return refine_case(tier)
 
     def check(self, case, ctx):
-        L, R = canon.build_table(case["L"]), canon.build_table(case["R"])
+        L, R = canon.build_pair(case)
         res = {}
         for ft in ("position", "prefix", "size"):
             c = dict(case)
